@@ -526,8 +526,16 @@ func refDefectCodes(f Frame) map[uint32]bool {
 		if l%6 != 0 {
 			codes[ErrFrameSize] = true
 		}
-		// SETTINGS values (ENABLE_PUSH, INITIAL_WINDOW_SIZE, MAX_FRAME_SIZE ranges) are
-		// semantic: validated one layer up, judged by C13, not by the codec table
+		// the ENABLE_PUSH and MAX_FRAME_SIZE ranges are semantic: validated one layer up and
+		// judged by C13. INITIAL_WINDOW_SIZE above 2^31-1 is a FLOW_CONTROL_ERROR (RFC 7540
+		// 6.5.2) wherever in the frame the entry stands, also when the identifier is repeated
+		if id == 0 && f.Flags&FlagAck == 0 && l%6 == 0 {
+			for i := 0; i+6 <= l; i += 6 {
+				if p[i] == 0 && p[i+1] == 4 && p[i+2]&0x80 != 0 {
+					codes[ErrFlowControl] = true
+				}
+			}
+		}
 	case FPushPromise:
 		if id == 0 {
 			codes[ErrProtocol] = true
@@ -917,7 +925,11 @@ func drawC19(t *rapid.T) *Case {
 				ln = rapid.IntRange(0, 64).Draw(t, "plen2")
 			}
 			f.Payload = rapid.SliceOfN(rapid.Byte(), ln, ln).Draw(t, "payload")
-			if drawBool(t, "edgepayload", 35) {
+			setFocus := drawBool(t, "setfocus", 10)
+			if setFocus {
+				f.Type = FSettings
+			}
+			if setFocus || drawBool(t, "edgepayload", 35) {
 				// payloads on parser boundaries: zero / maximal / reserved-bit words, pad-length
 				// octets around the frame length
 				edge := [][]byte{{0, 0, 0, 0}, {0x80, 0, 0, 0}, {0x7f, 0xff, 0xff, 0xff}, {0xff, 0xff, 0xff, 0xff}, {0, 0, 0, 1}, {0x80, 0, 0, 1}}
@@ -929,6 +941,16 @@ func drawC19(t *rapid.T) *Case {
 					f.Payload = append(append([]byte(nil), w...), byte(rapid.IntRange(0, 255).Draw(t, "edgeweight")))
 				case FGoAway:
 					f.Payload = append(append([]byte(nil), w...), 0, 0, 0, 0)
+				case FSettings:
+					// 1-3 entries, identifiers repeated, values on the range boundaries
+					f.Payload = nil
+					for k, ne := 0, rapid.IntRange(1, 3).Draw(t, "nsettings"); k < ne; k++ {
+						sid := []byte{4, 4, 4, 4, 1, 2, 3, 5, 6, 9}[rapid.IntRange(0, 9).Draw(t, "setid")]
+						f.Payload = append(append(f.Payload, 0, sid), edge[rapid.IntRange(0, len(edge)-1).Draw(t, "setval")]...)
+					}
+					if drawBool(t, "setplain", 70) {
+						f.Flags, f.Stream = 0, 0
+					}
 				case FHeaders, FData, FPushPromise:
 					if len(f.Payload) > 0 {
 						l := len(f.Payload)
